@@ -21,5 +21,5 @@ one() {
   git -C /repo worktree remove --force $wt
 }
 export -f one; export props
-printf '%s\n' $seeds | xargs -P 6 -I{} bash -c 'one {}' | sort > ${MATRIX_OUT:-seeded/MATRIX.tsv}
+printf '%s\n' $seeds | xargs -P ${MATRIX_JOBS:-6} -I{} bash -c 'one {}' | sort > ${MATRIX_OUT:-seeded/MATRIX.tsv}
 cat ${MATRIX_OUT:-seeded/MATRIX.tsv}
